@@ -195,8 +195,14 @@ theorem consistent_after (u u' : NodeRes) (live live' ws : List WorkloadRes) (in
   · rw [c, c3, hl]
   · rw [d, c4, hl]
 
+/-- the workload resources named by an operation are Go maps (only `readd` names one) -/
+def OpWF : Op → Prop
+  | .readd w => WFW w
+  | .failing op => OpWF op
+  | _ => True
+
 /-- every operation of a history preserves the invariant, for any scheduler returning Go maps -/
-theorem step_inv_cap (sched : Sched) (hs : SchedWF sched) (s : State) (h : Inv s) (op : Op) :
+theorem step_inv_cap (sched : Sched) (hs : SchedWF sched) (s : State) (h : Inv s) (op : Op) (hop : OpWF op) :
     Inv (step sched s op).1 ∧ (step sched s op).1.node.capacity = s.node.capacity := by
   induction op with
   | alloc k req =>
@@ -325,9 +331,24 @@ theorem step_inv_cap (sched : Sched) (hs : SchedWF sched) (s : State) (h : Inv s
           · rw [c, c3, sumBy_set _ _ _ _ _ hcur, hdel.cm]; omega
           · rw [d, c4, sumBy_set _ _ _ _ _ hcur, hdel.nm]; omega
 
+  | readd w =>
+    simp only [step]
+    cases hr : setNodeResourceUsage s.node none [w] true true with
+    | error e => exact ⟨inv_clear_undo s h, rfl⟩
+    | ok n' =>
+      simp only
+      have hww : ∀ x ∈ [w], WFW x := by intro x hx; simp only [List.mem_singleton] at hx; subst hx; exact hop
+      obtain ⟨hcp, hw', hv', a, b, c, d, _⟩ := set_usage_spec s.node n' h.wf _ hww true hr
+      refine ⟨⟨hw', hv', ?_, ?_, fun _ hu => by cases hu⟩, hcp⟩
+      · intro x hx
+        rcases List.mem_append.1 hx with h1 | h1
+        · exact h.wfl x h1
+        · exact hww x h1
+      · exact consistent_after _ _ s.live _ [w] true h.cons a b c d
+          (fun f => by rw [sumBy_append]; simp [sg])
   | failing op ih =>
     simp only [step]
-    obtain ⟨hinv, hcap⟩ := ih
+    obtain ⟨hinv, hcap⟩ := ih hop
     cases hst : step sched s op with
     | mk s1 ok =>
       rw [hst] at hinv hcap
@@ -342,15 +363,16 @@ theorem step_inv_cap (sched : Sched) (hs : SchedWF sched) (s : State) (h : Inv s
         exact ⟨by rw [r3.1]; exact c1, by rw [r3.2.1]; exact c2, fun k => by rw [r3.2.2.1 k]; exact c3 k,
           fun k => by rw [r3.2.2.2 k]; exact c4 k⟩
 
-theorem step_inv (sched : Sched) (hs : SchedWF sched) (s : State) (h : Inv s) (op : Op) : Inv (step sched s op).1 :=
-  (step_inv_cap sched hs s h op).1
+theorem step_inv (sched : Sched) (hs : SchedWF sched) (s : State) (h : Inv s) (op : Op) (hop : OpWF op) :
+    Inv (step sched s op).1 :=
+  (step_inv_cap sched hs s h op hop).1
 
 theorem usageEq_refl (u : NodeRes) : UsageEq u u := ⟨rfl, rfl, fun _ => rfl, fun _ => rfl⟩
 
 /-- Any operation that does not succeed — refused, invalid, failing validation, or failing
     because *another plugin* fails in the commit (cobalt then rolls cpumem back) — leaves the
     cpumem usage as it was and the live set unchanged. -/
-theorem failed_step_unchanged (sched : Sched) (hs : SchedWF sched) (s : State) (h : Inv s) (op : Op)
+theorem failed_step_unchanged (sched : Sched) (hs : SchedWF sched) (s : State) (h : Inv s) (op : Op) (hop : OpWF op)
     (hf : (step sched s op).2 = false) :
     UsageEq (step sched s op).1.node.usage s.node.usage ∧ (step sched s op).1.live = s.live := by
   induction op with
@@ -388,8 +410,14 @@ theorem failed_step_unchanged (sched : Sched) (hs : SchedWF sched) (s : State) (
       cases hh : rollbackRealloc s.node u.delta with
       | ok n' => rw [hh] at hf; cases hf
       | error e => exact ⟨usageEq_refl _, rfl⟩
+  | readd w =>
+    simp only [step] at hf ⊢
+    cases hh : setNodeResourceUsage s.node none [w] true true with
+    | ok n' => rw [hh] at hf; cases hf
+    | error e => exact ⟨usageEq_refl _, rfl⟩
   | failing op' ih =>
-    have ⟨hinv, hcap⟩ := step_inv_cap sched hs s h op'
+    have ih := ih hop
+    have ⟨hinv, hcap⟩ := step_inv_cap sched hs s h op' hop
     simp only [step]
     cases hst : step sched s op' with
     | mk s1 ok =>
@@ -405,21 +433,22 @@ theorem failed_step_unchanged (sched : Sched) (hs : SchedWF sched) (s : State) (
 
 /-- A commit in which another plugin fails never succeeds and leaves the cpumem usage as it was
     (cobalt's per-plugin rollback with the reported `Before`), whatever the operation. -/
-theorem failing_step_restores (sched : Sched) (hs : SchedWF sched) (s : State) (h : Inv s) (op : Op) :
+theorem failing_step_restores (sched : Sched) (hs : SchedWF sched) (s : State) (h : Inv s) (op : Op) (hop : OpWF op) :
     (step sched s (.failing op)).2 = false ∧
     UsageEq (step sched s (.failing op)).1.node.usage s.node.usage ∧ (step sched s (.failing op)).1.live = s.live := by
   have hf : (step sched s (.failing op)).2 = false := by
     simp only [step]
     cases step sched s op with
     | mk s1 ok => cases ok <;> rfl
-  exact ⟨hf, failed_step_unchanged sched hs s h (.failing op) hf⟩
+  exact ⟨hf, failed_step_unchanged sched hs s h (.failing op) hop hf⟩
 
-theorem run_inv (sched : Sched) (hs : SchedWF sched) (ops : List Op) (s : State) (h : Inv s) : Inv (run sched s ops) := by
+theorem run_inv (sched : Sched) (hs : SchedWF sched) (ops : List Op) (hops : ∀ op ∈ ops, OpWF op) (s : State) (h : Inv s) :
+    Inv (run sched s ops) := by
   induction ops generalizing s with
   | nil => exact h
   | cons op rest ih =>
     unfold run
     simp only [List.foldl_cons]
-    exact ih _ (step_inv sched hs s h op)
+    exact ih (fun o ho => hops o (by simp [ho])) _ (step_inv sched hs s h op (hops op (by simp)))
 
 end Eru.Book
